@@ -13,8 +13,9 @@ pub fn scenario(seed: u64, campaign: &'static str, prop: &'static str, idx: u64)
     sc.request_size = pick_buffer(&mut rng);
     sc.yields = pick_yields(&mut rng);
     sc.tree = small_tree(rng.next());
+    let mut real_paths: Vec<String> = vec![];
     if rng.chance(1, 2) {
-        super::real::add_realism(&mut rng, &mut sc.tree);
+        real_paths = super::real::add_realism(&mut rng, &mut sc.tree);
     }
     if (prop == "C10" && rng.chance(1, 2)) || (prop == "C04" && rng.chance(1, 4)) {
         sc.env = super::c09::cors_env(&mut rng);
@@ -29,7 +30,8 @@ pub fn scenario(seed: u64, campaign: &'static str, prop: &'static str, idx: u64)
     };
     let overlapped = rng.chance(1, 2);
     for i in 0..n {
-        let target = targets[rng.below(targets.len())];
+        // (what the realism layer added to the tree is asked for as well)
+        let target: &str = if !real_paths.is_empty() && rng.chance(1, 3) { rng.pick(&real_paths).as_str() } else { targets[rng.below(targets.len())] };
         let (class, bytes) = mutated_request(&mut rng, target, sc.request_size as usize);
         let bytes = match rng.below(7) {
             0 | 1 => decorate(&mut rng, &bytes),
@@ -95,8 +97,12 @@ pub fn long_history(seed: u64, idx: u64) -> Scenario {
 /// one stalled connection and a burst of more than a thousand ordinary ones in the same phase:
 /// queue limits and other thresholds far beyond the worker count
 pub fn burst(seed: u64, idx: u64) -> Scenario {
-    let mut rng = rng_for(seed, "C04", "burst", idx);
-    let mut sc = Scenario::base("C04", "burst", idx);
+    burst_for("C04", seed, idx)
+}
+
+pub fn burst_for(prop: &'static str, seed: u64, idx: u64) -> Scenario {
+    let mut rng = rng_for(seed, prop, "burst", idx);
+    let mut sc = Scenario::base(prop, "burst", idx);
     sc.engine = Engine::System;
     sc.sched = Sched { kind: SchedKind::Random, seed: rng.next(), depth: 0 };
     sc.workers = rng.range(2, 3);
@@ -189,5 +195,11 @@ pub fn plan_c10(tier: Tier, seed: u64) -> Vec<Campaign> {
         },
         exhaustive: false,
         gen: Box::new(move |i| scenario(seed, "responses", "C10", i)),
+    }, Campaign {
+        // every answer of an overloaded server is a response too
+        name: "burst",
+        budget: Budget::Count(match tier { Tier::Quick => 6, Tier::Thorough => 60 }),
+        exhaustive: false,
+        gen: Box::new(move |i| burst_for("C10", seed, i)),
     }]
 }
